@@ -25,7 +25,7 @@ from harness.common import framework as fw
 
 PROP = "C16"
 GENERATED = ["CookiesGen.v"]
-RULE = ("histories of 3-16 operations over a lattice of related hosts (parent/child/grand-child/sibling/suffix- and "
+RULE = ("(plus a session suite: redirect chains through the real ClientSession, one evaluation per hop) histories of 3-16 operations over a lattice of related hosts (parent/child/grand-child/sibling/suffix- and "
         "prefix-lookalikes/trailing-dot/IPv4/IPv6/IP-lookalike), paths and schemes, each followed by a sweep of "
         "filter_cookies over hosts x paths x {http,https}; every cookie value is unique so an attached cookie "
         "identifies the Set-Cookie that created it.  One evaluation = one filter_cookies query compared on "
@@ -38,7 +38,8 @@ TRUSTED = [
     "oracles (not modelled): aiohttp._cookie_helpers.parse_set_cookie_headers and http.cookies.Morsel (header -> attribute "
     "record), CookieJar._parse_date, int() on Max-Age, yarl.URL (raw_host, path, scheme), json + file I/O of save/load, "
     "Morsel value quoting in _build_morsel",
-    "not modelled: treat_as_secure_origin, quote_cookie=False, cookies set without a response URL (shared cookies), the morsel cache",
+    "treat_as_secure_origin: request secure-ness (scheme, or exact origin among the declared ones) is computed by the harness and given to model and reference",
+    "not modelled: quote_cookie=False, cookies set without a response URL (shared cookies), the morsel cache",
 ]
 ASSUMPTIONS = [
     "Response and request URLs have a host; request paths are yarl's decoded .path (percent-encoded slashes are outside the generated domain).",
@@ -71,8 +72,36 @@ NAMES = ["a", "a", "b", "c"]
 SCHEMES = ["http", "https", "http", "https", "ws", "wss"]
 
 
+def split_host(h):
+    """'example.com:8443' / '[::1]:80' / '[::1]' / 'example.com' -> (raw host, port or None)"""
+    if h.startswith("["):
+        host, _, rest = h[1:].partition("]")
+        return host, (int(rest[1:]) if rest.startswith(":") else None)
+    host, sep, port = h.partition(":")
+    return host, (int(port) if sep else None)
+
+
 def raw_host(h):
-    return h[1:-1] if h.startswith("[") else h
+    return split_host(h)[0]
+
+
+DEFAULT_PORT = {"http": 80, "ws": 80, "https": 443, "wss": 443}
+
+
+def origin_of(sch, h):
+    host, port = split_host(h)
+    return (sch, host, port if port is not None else DEFAULT_PORT[sch])
+
+
+def parse_origin(o: str):
+    sch, _, rest = o.partition("://")
+    return origin_of(sch, rest.rstrip("/"))
+
+
+def is_secure(case, sch, h) -> bool:
+    """A request is secure if its scheme is, or its ORIGIN (scheme, host, port) is one the jar was told to treat
+    as secure (CookieJar(treat_as_secure_origin=...)); computed here, independently of the jar."""
+    return secure_scheme(sch) or origin_of(sch, h) in {parse_origin(o) for o in case.get("secure_origins") or []}
 
 
 def secure_scheme(s):
@@ -120,6 +149,38 @@ def rfc_max_age(s):
     if body == "" or not (body.isascii() and body.isdigit()):
         return None
     return int(s)
+
+
+def parse_http_date(v: str):
+    import calendar
+    try:
+        return calendar.timegm(_time.strptime(v, "%a, %d %b %Y %H:%M:%S GMT"))
+    except ValueError:
+        return None
+
+
+def rfc_parse_set_cookie(header: str) -> dict:
+    """RFC 6265 5.2 on the Set-Cookie string AS WRITTEN (this is what the reference store is fed; the model is fed
+    what aiohttp's parser produced).  cookie-avs are processed in order, the last one of a name wins; a Domain
+    with an empty value is ignored (5.2.3)."""
+    parts = header.split(";")
+    name, _, value = parts[0].partition("=")
+    a = dict(name=name.strip(), value=value.strip(), domain=None, path=None, secure=False, max_age=None, expires=None)
+    for av in parts[1:]:
+        k, _, v = av.partition("=")
+        k, v = k.strip().lower(), v.strip()
+        if k == "domain":
+            if v:
+                a["domain"] = v
+        elif k == "path":
+            a["path"] = v or None
+        elif k == "secure":
+            a["secure"] = True
+        elif k == "max-age":
+            a["max_age"] = v or None
+        elif k == "expires":
+            a["expires"] = (v, parse_http_date(v)) if v else None
+    return a
 
 
 class RefStore:
@@ -224,7 +285,7 @@ class Gen:
             else:
                 t = int(now) + r.choice([-100, -5, 0, 5, 6, 10, 50, 100])
                 a["expires"] = (http_date(t), t)
-        return a
+        return dress(a, r) if r.random() < 0.5 else a
 
     def url(self, paths):
         r = self.rng
@@ -285,6 +346,8 @@ class Gen:
                 if a["max_age"] is None and r.random() < 0.3:
                     t = int(now) + r.choice([5, 10, -5])
                     a["expires"] = (http_date(t), t)
+                if r.random() < 0.4:
+                    dress(a, r)
                 ops.append(["set", [r.choice(["http", "https"]), h, r.choice(["/", "/foo/x", "/bar"])], [a]])
                 self.touch(ops, 0.35)
             elif x < 0.68:
@@ -298,6 +361,30 @@ class Gen:
             else:
                 ops.append(["filter", [r.choice(["http", "https"]), r.choice(hosts), r.choice(["/", "/foo", "/bar", "/foo/bar"])]])
         return {"unsafe": hosts[0][0].isdigit() or r.random() < 0.1, "t0": T0, "ops": ops, "sweep": True}
+
+    def secure_origin(self):
+        """Jar configured with treat_as_secure_origin: Secure cookies, and queries on the declared origins and on other
+        ports / schemes of the same hosts (only the exact origin -- scheme, host, port -- counts as secure)."""
+        r = self.rng
+        self.n = 0
+        origins = r.choice([["http://example.com:8443"], ["http://sub.example.com"], ["http://example.com"],
+                            ["http://example.com:8443", "ws://sub.example.com:9000"], ["ws://example.com:8080", "http://other.example.com:8080"]])
+        hosts = ["example.com", "sub.example.com", "other.example.com"]
+        ports = ["", ":8443", ":8080", ":9000"]     # no explicit default ports: yarl's origin() of http://h:80 != http://h
+        ops = []
+        for _ in range(r.randint(3, 9)):
+            if r.random() < 0.5:
+                self.n += 1
+                a = dict(name=r.choice(["a", "b"]), value=f"v{self.n}", domain=r.choice([None, "example.com", None]),
+                         path=r.choice([None, "/foo"]), secure=r.random() < 0.8, max_age=None, expires=None)
+                if r.random() < 0.3:
+                    dress(a, r)
+                ops.append(["set", [r.choice(["https", "http"]), r.choice(hosts) + r.choice(ports), "/"], [a]])
+            else:
+                ops.append(["filter", [r.choice(["http", "ws", "https", "http"]), r.choice(hosts) + r.choice(ports), r.choice(["/", "/foo"])]])
+            if r.random() < 0.1:
+                ops.append(["save_load"])
+        return {"unsafe": False, "t0": T0, "ops": ops, "sweep": True, "secure_origins": origins}
 
     def refresh(self):
         """The same cookie is re-sent by several responses a fraction of a second (or exactly one, or a few seconds)
@@ -324,6 +411,8 @@ class Gen:
                 t = int(now) + r.choice([1, 2, 5])
                 a["expires"] = (http_date(t), t)
                 deadline = t
+            if r.random() < 0.3:
+                dress(a, r)
             ops.append(["set", ["https", host, "/"], [a]])
             if r.random() < 0.25:
                 ops.append(["filter", ["https", host, path or "/"]])
@@ -347,6 +436,8 @@ class Gen:
             return self.focused()
         if x < 0.4:
             return self.refresh()
+        if x < 0.5:
+            return self.secure_origin()
         self.n = 0
         ops = []
         now = T0
@@ -371,7 +462,32 @@ class Gen:
         return {"unsafe": r.random() < 0.2, "t0": T0, "ops": ops, "sweep": True}
 
 
+def dress(a, r):
+    """Write the cookie's attributes in a random order, with empty-valued attributes (`Domain=`, `Path=`,
+    `Max-Age=`, `Expires=`) for the ones it does not have, HttpOnly / SameSite noise and mixed-case names."""
+    avs = []
+    for key, val in (("Domain", a["domain"]), ("Path", a["path"]), ("Max-Age", a["max_age"]),
+                     ("Expires", a["expires"][0] if a["expires"] is not None else None)):
+        if val is not None:
+            avs.append(f"{key}={val}")
+        elif r.random() < 0.3:
+            avs.append(f"{key}=")
+    if a["secure"]:
+        avs.append(r.choice(["Secure", "Secure", "secure", "SECURE"]))
+    if r.random() < 0.2:
+        avs.append("HttpOnly")
+    if r.random() < 0.1:
+        avs.append("SameSite=Lax")
+    r.shuffle(avs)
+    if r.random() < 0.3:
+        avs = [x.lower() if r.random() < 0.5 and not x.startswith("Expires=") else x for x in avs]
+    a["header"] = "; ".join([f"{a['name']}={a['value']}"] + avs)
+    return a
+
+
 def header_of(a) -> str:
+    if a.get("header"):
+        return a["header"]
     s = f"{a['name']}={a['value']}"
     if a["domain"] is not None:
         s += f"; Domain={a['domain']}"
@@ -394,6 +510,13 @@ def expand(case):
             for p in SWEEP_PATHS:
                 for sch in ("http", "https"):
                     ops.append(["filter", [sch, h, p]])
+        if case.get("secure_origins"):
+            hosts = sorted({parse_origin(o)[1] for o in case["secure_origins"]} | {"example.com", "sub.example.com"})
+            for h in hosts:
+                for port in ("", ":8443", ":8080", ":9000"):
+                    for sch in ("http", "ws", "https"):
+                        for p in ("/", "/foo"):
+                            ops.append(["filter", [sch, h + port, p]])
     return ops
 
 
@@ -437,7 +560,9 @@ def run_impl(case, tmpdir):
     cj.time = clock
     viol = []
     try:
-        jar = cj.CookieJar(unsafe=case["unsafe"])
+        so = case.get("secure_origins") or []
+        jar = cj.CookieJar(unsafe=case["unsafe"],
+                           treat_as_secure_origin=(None if not so else (so[0] if len(so) == 1 else [URL(o) for o in so])))
         ref = RefStore(case["unsafe"])
         words = []
         impl_out, ref_out, queries = [], [], []
@@ -482,8 +607,8 @@ def run_impl(case, tmpdir):
                 if len(ms) != len(op[2]):
                     raise RuntimeError("parser oracle dropped a generated cookie: %r" % hdrs)
                 words.append(":".join(["S", "1" if secure_scheme(sch) else "0", hx(host), hx(upath), "+".join(ms)]))
-                for a in op[2]:
-                    ref.set(raw_host(h), upath, a, clock.t, idx)
+                for hd in hdrs:           # the reference store reads the header as written (own RFC 5.2 parser)
+                    ref.set(raw_host(h), upath, rfc_parse_set_cookie(hd), clock.t, idx)
             elif kind == "advance":
                 clock.t += ticks(op[1])
                 words.append(f"T:{ticks(op[1])}")
@@ -505,17 +630,18 @@ def run_impl(case, tmpdir):
                 url = URL(f"{sch}://{h}{p}")
                 got = sorted((k, m.value) for k, m in jar.filter_cookies(url).items())
                 rpath = url.path           # yarl is the oracle for URL -> request path ("" becomes "/")
-                allowed = ref.filter(raw_host(h), rpath, secure_scheme(sch), clock.t)
+                sec = is_secure(case, sch, h)
+                allowed = ref.filter(raw_host(h), rpath, sec, clock.t)
                 impl_out.append(got)
                 ref_out.append(allowed)
                 queries.append((idx, sch, h, p, clock.seconds))
-                words.append(":".join(["F", "1" if secure_scheme(sch) else "0", hx(url.raw_host or ""), hx(url.path)]))
+                words.append(":".join(["F", "1" if sec else "0", hx(url.raw_host or ""), hx(url.path)]))
                 for nv in got:
                     if tuple(nv) not in allowed:
                         cands = [c for c in ref.cookies if c["value"] == nv[1]]
                         if cands:
                             c = cands[0]
-                            why = ref.why_not(c, raw_host(h), rpath, secure_scheme(sch), clock.t)
+                            why = ref.why_not(c, raw_host(h), rpath, sec, clock.t)
                             src = ops[c["src"]]
                             a = [x for x in src[2] if x["value"] == nv[1]][0]
                             shown = {k: c[k] for k in ("name", "domain", "path", "host_only", "secure")}
@@ -612,8 +738,11 @@ def build_model():
 
 def violation_case(case, v):
     idx, sent, diag, what = v
-    return {"suite": "history", "unsafe": case["unsafe"], "t0": case["t0"], "ops": case["ops"], "sweep": case.get("sweep", False),
-            "at": idx, "sent": sent, "diag": diag}, what
+    vc = {"suite": "history", "unsafe": case["unsafe"], "t0": case["t0"], "ops": case["ops"], "sweep": case.get("sweep", False),
+          "at": idx, "sent": sent, "diag": diag}
+    if case.get("secure_origins"):
+        vc["secure_origins"] = case["secure_origins"]
+    return vc, what
 
 
 def shrink(case, kind, tmpdir, budget=120):
@@ -731,6 +860,222 @@ def suite_domain_match(ctx, exe):
     ctx.close_suite("domain_match", n)
 
 
+
+# ---------------------------------------------------------------------------------------------
+# session level: the Cookie header the real ClientSession puts on every hop of a redirect chain
+
+S_HOSTS = ["example.com", "sub.example.com", "other.example.com", "example.com:8080"]
+S_PATHS = ["/account/logout", "/account", "/account/", "/public/bye", "/", "/foo/x"]
+
+
+def gen_session_case(r):
+    n = [0]
+
+    def cookie():
+        n[0] += 1
+        return dict(name=r.choice(["a", "b", "c", "sid"]), value=f"v{n[0]}", domain=r.choice([None, None, "example.com"]),
+                    path=r.choice([None, "/account", "/public", "/", "/foo"]), secure=r.random() < 0.25, max_age=None, expires=None)
+    jar = [[[r.choice(["http", "https"]), r.choice(S_HOSTS), r.choice(S_PATHS)], [cookie()]] for _ in range(r.randint(1, 5))]
+    chain = []
+    for i in range(r.randint(2, 4)):
+        hop = {"url": [r.choice(["http", "https", "http"]), r.choice(S_HOSTS[:2] if r.random() < 0.7 else S_HOSTS), r.choice(S_PATHS)],
+               "status": r.choice([301, 302, 303, 307, 308]), "set_cookie": [cookie()] if r.random() < 0.15 else []}
+        if chain and r.random() < 0.6:            # stay on the origin, change only the path
+            hop["url"][0], hop["url"][1] = chain[-1]["url"][0], chain[-1]["url"][1]
+        chain.append(hop)
+    return {"suite": "session", "t0": T0, "jar": jar, "chain": chain, "req_cookies": r.random() < 0.1}
+
+
+class _SOrigin:
+    """One in-memory connection of a scripted origin: records the Cookie header of every request it receives and
+    answers hop i with a redirect to hop i+1 (the last hop with 200)."""
+
+    def __init__(self, run, loop):
+        self.run, self.loop, self.buf = run, loop, bytearray()
+
+    def on_bytes(self, tr, data):
+        self.buf += data
+        while b"\r\n\r\n" in self.buf:
+            head, _, rest = bytes(self.buf).partition(b"\r\n\r\n")
+            self.buf = bytearray(rest)
+            lines = head.decode("latin-1").split("\r\n")
+            target = lines[0].split(" ")[1]
+            hs = {}
+            for ln in lines[1:]:
+                k, _, v = ln.partition(":")
+                hs.setdefault(k.strip().lower(), []).append(v.strip())
+            self.loop.call_soon(self._deliver, tr, self.run.received(target, hs))
+
+    @staticmethod
+    def _deliver(tr, data):
+        if not tr.closed and tr.protocol is not None:
+            tr.protocol.data_received(data)
+
+
+class _SRun:
+    def __init__(self, case):
+        self.case, self.requests = case, []
+
+    def received(self, target, hs):
+        i = len(self.requests)
+        self.requests.append({"target": target, "host": (hs.get("host") or [""])[0], "cookie": hs.get("cookie") or []})
+        chain = self.case["chain"]
+        lines = []
+        if i + 1 < len(chain):
+            sch, h, p = chain[i + 1]["url"]
+            lines = [f"HTTP/1.1 {chain[i]['status']} R", f"Location: {sch}://{h}{p}"]
+            for a in chain[i]["set_cookie"]:
+                lines.append("Set-Cookie: " + header_of(a))
+        else:
+            lines = ["HTTP/1.1 200 OK"]
+        lines.append("Content-Length: 0")
+        return ("\r\n".join(lines) + "\r\n\r\n").encode()
+
+
+def run_session_case(case):
+    """-> (per-hop received {name: value}, per-hop twin-jar selection, per-hop reference selection, error)"""
+    import asyncio
+    import aiohttp
+    import aiohttp.cookiejar as cj
+    from yarl import URL
+    from harness.common.loop import VLoop
+    from harness.common.transport import make_connector
+    clock = FakeTime(ticks(case["t0"]))
+    real_time = cj.time
+    cj.time = clock
+    loop = VLoop()
+    asyncio.set_event_loop(loop)
+    run = _SRun(case)
+    try:
+        jar, twin, ref = cj.CookieJar(), cj.CookieJar(), RefStore(False)
+        for (sch, h, p), attrs in case["jar"]:
+            hdrs = [header_of(a) for a in attrs]
+            for j in (jar, twin):
+                j.update_cookies_from_headers(hdrs, URL(f"{sch}://{h}{p}"))
+            for hd in hdrs:
+                ref.set(raw_host(h), URL(f"{sch}://{h}{p}").path, rfc_parse_set_cookie(hd), clock.t, -1)
+        extra = {"rq": "r1"} if case.get("req_cookies") else None
+
+        async def go():
+            conn = make_connector(loop, lambda req: _SOrigin(run, loop))
+            async with aiohttp.ClientSession(connector=conn, cookie_jar=jar) as session:
+                sch, h, p = case["chain"][0]["url"]
+                async with session.get(f"{sch}://{h}{p}", cookies=extra, max_redirects=10) as resp:
+                    await resp.read()
+        err = None
+        try:
+            loop.run_until_complete(asyncio.wait_for(go(), 600))
+        except Exception as e:  # noqa
+            err = repr(e)
+        got, twins, allowed = [], [], []
+        origin0 = origin_of(*case["chain"][0]["url"][:2])
+        same_origin = True
+        for i, rq in enumerate(run.requests):
+            sch, h, p = case["chain"][i]["url"]
+            d = {}
+            for line in rq["cookie"]:
+                for item in line.split(";"):
+                    k, _, v = item.strip().partition("=")
+                    if k:
+                        d[k] = v
+            same_origin = same_origin and origin_of(sch, h) == origin0
+            url = URL(f"{sch}://{h}{p}")
+            tw = {k: m.value for k, m in twin.filter_cookies(url).items()}
+            al = dict()
+            for k, v in ref.filter(raw_host(h), url.path, secure_scheme(sch), clock.t):
+                al.setdefault(k, set()).add(v)
+            if extra and same_origin:     # per-request cookies travel only while the chain stays on the first origin
+                tw.update(extra)
+                al.setdefault("rq", set()).add("r1")
+            got.append(d)
+            twins.append(tw)
+            allowed.append(al)
+            # the hop's response may carry Set-Cookie
+            if i + 1 < len(case["chain"]):
+                hdrs = [header_of(a) for a in case["chain"][i]["set_cookie"]]
+                if hdrs:
+                    twin.update_cookies_from_headers(hdrs, url)
+                    for hd in hdrs:
+                        ref.set(raw_host(h), url.path, rfc_parse_set_cookie(hd), clock.t, -1)
+        return got, twins, allowed, err
+    finally:
+        cj.time = real_time
+        try:
+            loop.run_until_complete(loop.shutdown_asyncgens())
+        except Exception:  # noqa
+            pass
+        asyncio.set_event_loop(None)
+        loop.close()
+
+
+def check_session_case(ctx, case):
+    got, twins, allowed, err = run_session_case(case)
+    viol = []
+    if err is not None or len(got) != len(case["chain"]):
+        ctx.disagreement("session", case, f"{len(case['chain'])} hops", f"{len(got)} requests, error={err}")
+    for i, (g, tw, al) in enumerate(zip(got, twins, allowed)):
+        sch, h, p = case["chain"][i]["url"]
+        ctx.case(("session", sch, h, p, tuple(sorted(g.items()))), nontrivial=bool(g))
+        ctx.count("session-hop:%d" % i)
+        if g != tw:
+            ctx.disagreement("session", dict(case, at=i), sorted(tw.items()), sorted(g.items()))
+        for k, v in sorted(g.items()):
+            if v not in al.get(k, ()):
+                viol.append((i, f"hop {i} {sch}://{h}{p}: the request carried Cookie {k}={v}, which an RFC 6265 store would not "
+                                f"attach to this URL (allowed here: { {n: sorted(vs) for n, vs in al.items()} })"))
+    for i, what in viol:
+        ctx.violation(dict(case, at=i, diag={"kind": "session_hop"}), what)
+    return len(got), bool(viol)
+
+
+def shrink_session(case):
+    """Drop pre-loaded cookies and hops while some hop still carries a forbidden cookie."""
+    def bad(c):
+        try:
+            got, twins, allowed, err = run_session_case(c)
+        except Exception:  # noqa
+            return False
+        return any(v not in al.get(k, ()) for g, al in zip(got, allowed) for k, v in g.items())
+    cur = dict(case, req_cookies=False) if bad(dict(case, req_cookies=False)) else case
+    changed = True
+    while changed:
+        changed = False
+        for i in range(len(cur["jar"]) - 1, -1, -1):
+            t = dict(cur, jar=cur["jar"][:i] + cur["jar"][i + 1:])
+            if bad(t):
+                cur, changed = t, True
+                break
+        if changed:
+            continue
+        for i in range(len(cur["chain"]) - 1, -1, -1):
+            if len(cur["chain"]) <= 2:
+                break
+            t = dict(cur, chain=cur["chain"][:i] + cur["chain"][i + 1:])
+            if bad(t):
+                cur, changed = t, True
+                break
+    return cur
+
+
+def suite_session(ctx):
+    n = 0
+    cases = [c for _, c in load_corpus() if c.get("suite") == "session"]
+    cases += [gen_session_case(ctx.rng) for _ in range(150 if ctx.quick else 3000)]
+    shrunk = 0
+    for case in cases:
+        before = len(ctx.violations)
+        hops, bad = check_session_case(ctx, case)
+        n += hops
+        if bad and shrunk < 1 and len(ctx.violations) > before:
+            # replace the recorded violations of this case by the shrunk one
+            small = shrink_session(case)
+            del ctx.violations[before:]
+            check_session_case(ctx, small)
+            shrunk += 1
+    ctx.sample({"suite": "session", "case": cases[-1]})
+    ctx.close_suite("session", n)
+
+
 def load_corpus():
     out = []
     for f in sorted(glob.glob(os.path.join(fw.VERIF, "corpus", "C16", "*.json"))):
@@ -781,6 +1126,7 @@ def run(ctx):
         ctx.close_suite("reference_store", n)
         ctx.traces_validated += len(cases)
     suite_domain_match(ctx, exe)
+    suite_session(ctx)
 
 
 def replay(ctx, case):
@@ -791,6 +1137,12 @@ def replay(ctx, case):
         m = fw.run_model(exe, ["DM %s %s" % (hx(case["domain"]), hx(case["host"]))])[0] if ok else None
         return {"impl": got, "model": m, "rfc": rfc_domain_match(case["domain"], case["host"]),
                 "violates": bool(got and not rfc_domain_match(case["domain"], case["host"]))}
+    if case.get("suite") == "session":
+        got, twins, allowed, err = run_session_case(case)
+        bad = [(i, k, v) for i, (g, al) in enumerate(zip(got, allowed)) for k, v in g.items() if v not in al.get(k, ())]
+        return {"violates": bool(bad), "forbidden": bad, "error": err,
+                "hops": [{"url": h["url"], "cookie_header": g, "jar_selection": tw, "rfc_reference": {k: sorted(v) for k, v in al.items()}}
+                         for h, g, tw, al in zip(case["chain"], got, twins, allowed)]}
     with tempfile.TemporaryDirectory(prefix="c16-") as tmpdir:
         line, impl_out, ref_out, viol, queries = run_impl(case, tmpdir)
         model = fw.run_model(exe, ["HD" + line[1:]])[0] if ok else None
